@@ -95,6 +95,14 @@ CHECKS = {
             "acceptance model written from the statement; dispatch observed through event ids printed by the arms",
             "runtime monitoring: per-switch accept/reject observation + per-variant execution with arm-id/payload oracle",
             "cli", "4/C11"),
+    "C02": ("exploration",
+            "write sites of every kind (variant->enum, payload/nil->optional, payload/error->error union, struct/array literals, anonymous reordered literals, "
+            "aggregate copies into fields / elements / through ^mut, struct returns, default init) over object types of size 1..64 and alignments 1..8, placed "
+            "between u8 guard fields, array neighbours or guard locals, are compiled by the real CLI and run; every guard is printed after every write and the "
+            "object is read back; copy-semantics sites mutate a copy and re-read the original.",
+            "guards are separate live values directly adjacent to the object; padding inside the object is not constrained",
+            "runtime monitoring: guard-value (canary) monitor around every write + read-back oracle on the executed program",
+            "cli", "4/C02"),
 }
 
 NOT_YET = "check not built yet in this round (work in progress; see DESIGN.md section 4 for the plan)"
